@@ -22,6 +22,7 @@ type SessCase struct {
 	KeyIdx   int
 	Temporal bool
 	KeyPEM   int // as in Case
+	KlogV    int
 	NoDER    bool
 	DecoyIdx int
 	Siblings []Sibling
@@ -49,6 +50,7 @@ type SessStep struct {
 func genSess(t *rapid.T) SessCase {
 	c := SessCase{KeyKind: rapid.SampledFrom([]string{"p256", "p256", "rsa2048", "rsa3072"}).Draw(t, "keykind"), KeyIdx: rapid.IntRange(0, 7).Draw(t, "keyidx")}
 	genKeyOptions(t, &c.KeyPEM, &c.NoDER, &c.DecoyIdx, &c.Siblings)
+	c.KlogV = rapid.SampledFrom([]int{0, 0, 1, 2}).Draw(t, "klogv")
 	kind := rapid.SampledFrom([]string{"sth", "sth", "sth", "add", "add", "pre", "mixed"}).Draw(t, "kind")
 	c.Chain = world.GenSpec(t, "chain")
 	c.Other = world.GenSpec(t, "other")
@@ -142,6 +144,9 @@ func (c SessCase) stepCase(st SessStep) Case {
 
 func checkSess(t *testing.T, c SessCase) (v harness.Verdict) {
 	ct.AllowVerificationWithNonCompliantKeys = false
+	harness.SetKlogVerbosity(c.KlogV)
+	defer harness.SetKlogVerbosity(0)
+	v.Class(fmt.Sprintf("klog-v:%d", c.KlogV))
 	type stepRun struct {
 		s      *scene
 		script []*built
